@@ -157,7 +157,7 @@ namespace avel {
 
         [[nodiscard]]
         static AVEL_FINL std::int64_t compute_mp(std::int64_t l, std::int64_t d) {
-            std::int64_t n = std::int64_t(d != 1) << (l - 1);
+            std::int64_t n = std::int64_t(avel::abs(d) != 1) << (l - 1);
             std::int64_t quotient = div_64uhi_by_64u(n, avel::abs(d));
             std::int64_t ret = quotient + 1;
 
